@@ -116,7 +116,9 @@ PROP = {'gen': [],
                'write/flush/read/consume/consume_with/drop/read_to_end calls and every program of write/execute/flush/poll/frames_drop '
                'under every schedule, no panic (bar usize overflow of a caller-supplied consume amount), representation invariant, '
                'delivered ++ pending = written minus discarded chunks in order (erasure relation), len() = bytes readable to exhaustion, '
-               'discarded chunks are whole flush-delimited frames none of whose bytes is ever delivered. Models tied to the code by '
+               'discarded chunks are whole frames none of whose bytes is ever delivered (frames delimited by flush/poll/drop in general, by flush/poll '
+               'only for programs that drop right after a flush or poll, e.g. the render loop); progress under accepting rounds; the '
+               'specification side accepts every model history. Models tied to the code by '
                'histories on the real IOQueue (incl. 64 KiB..1 MiB chunks) and by pty sessions of the real SystemTerminal.',
  'level_note': 'Trusted: Coq kernel + vm_compute; hand-written models IO/IOQueue.v, IO/TermIO.v validated by the correspondence runs; '
                'IO/FifoSpec.v / match_frames as the reading of the property text; kernel behaviour universally quantified, sampled by '
@@ -138,6 +140,10 @@ PROP = {'gen': [],
                   HARNESS + '; pty peer thread (harness/src/ptyutil.rs)'],
  'assumptions': ['fewer than 2^64 bytes are written in one history (so `length += n` cannot overflow and chunk lengths fit usize)',
                  'consume amounts passed by callers fit usize when added to the queue size (BufRead contract: amt <= bytes shown); otherwise the '
-                 'only possible panic is the overflow of `offset + amt`',
+                 'only possible panic is the overflow of `offset + amt` (debug build; a release build wraps instead and corrupts length/offset: '
+                 'out of contract either way)',
                  'the tty accepts a prefix of the slice it is given (write(2) contract); which prefix, and when, is arbitrary',
-                 'a frame is delimited by flush, poll and frames_drop calls']}
+                 'a frame is delimited by flush, poll and frames_drop calls (C16_frames); by flush and poll only when nothing is handed over '
+                 'between the last flush/poll and a drop (C16_frames_flush_delimited)',
+                 'delivery theorems speak about bytes the kernel accepted; a peer that never reads gets nothing (C16_progress needs accepting rounds); '
+                 'the tee (duplicate_output) is not modelled']}
